@@ -79,6 +79,10 @@ def gen_times(rng, n, want_bounds, backward=True):
                 step = gap_min + rng.below(max(1, min(gap_max - gap_min, 40 * 86400)))
                 if step > gap_max:
                     step = gap_max
+                # every third wrap: a gap just below the largest one the hypotheses allow (365 d - 25 h): read in the successor's year the message
+                # then lies between 25 h and 26 h AFTER its successor, the narrowest jump that must still count as a year wrap (seeded change C11-d)
+                if rng.chance(1, 3) and gap_max - 3599 >= gap_min:
+                    step = gap_max - rng.below(3600)
                 if t + step >= ny:
                     bounds_left -= 1
             elif kind == 0 and backward:
